@@ -125,8 +125,8 @@ Definition agree_opt_replay (k : rcase) : bool :=
 Fixpoint calls_of (n : call) : list call := match n with Call _ _ _ ks => n :: flat_map calls_of ks end.
 Definition thresholds (c : cfg) (l : list N) : list N :=
   threshold c :: flat_map (fun f => match q_time (trig_of c f) with Some t => [t] | None => [] end) l.
-(* a time= trigger never lowers the threshold in force (else a hidden, long enough descendant keeps a
-   short ancestor at replay time only) *)
+(* (kept for reference: not needed any more - time= is only compared when nothing is hidden, and then
+   C07_record_equals_replay_time_trigger needs no monotonicity) *)
 Fixpoint mono_thr (c : cfg) (thr : N) (n : call) : bool :=
   match n with
   | Call f _ _ ks =>
@@ -139,7 +139,6 @@ Definition rr_class_of (c : cfg) (f : list call) : bool :=
           (flat_map calls_of f)
   && forallb (fun k => match q_depth (trig_of c k) with None => true | Some _ => false end
                        && negb (q_trace_on (trig_of c k)) && negb (q_trace_off (trig_of c k))) l
-  && forallb (mono_thr c (threshold c)) f
   (* -C, `trace` and time= act on calls that -F/-N/-D hide at replay time but not at record time:
      only compared when no call is hidden by -F/-N/-D *)
   && (negb (caller_filter c || existsb (fun k => q_trace (trig_of c k)) l
